@@ -20,8 +20,9 @@ Oracle (weakest reading of the statement):
   U2  the bytes the store received during ONE response never exceed E — if they do and the response succeeded the
       key is ``ext-cap-exceeded:<kind>:<degree>``, if the response was turned into an error afterwards the key is
       ``ext-overshoot-uploaded-before-refusal:<kind>:<degree>`` ("an overshoot is refused before upload"); degree =
+      ``compression-expansion`` when the pre-compression upload fits the cap but the compressed object is larger,
       ``framing-gap`` when the logical buffer bytes of the uploaded batches fit the cap (only framing/log bytes push
-      the upload over it) else ``logical-overshoot``;
+      the upload over it), else ``logical-overshoot``;
   U3  a failure must be an ``RpcError`` naming the cap that is configured (``max_response_bytes`` /
       ``max_externalized_response_bytes``);
   U4  no spurious refusal: when W >= F_ref and E >= raw_ref (or the caps are None) the call must succeed with the
@@ -255,7 +256,12 @@ def judge(ctx: Ctx, case: dict[str, Any], ref: dict[str, Any], ref_inline: dict[
         if E is not None and got > E:
             # "framing-gap": the logical (buffer) bytes of the uploaded batches fit the cap, only IPC framing / log
             # batches push the upload over it; "logical-overshoot": even the logical bytes exceed the cap
-            degree = "framing-gap" if 0 <= ext_lg <= E else "logical-overshoot"
+            urls = list(res["storage"].objects)[e["up0"] : e["up0"] + len(e["uploads"])]
+            raw_now = sum(len(res["storage"].fetch(u)) for u in urls)
+            if raw_now <= E:
+                degree = "compression-expansion"  # the pre-compression bytes fit; the compressed upload is larger
+            else:
+                degree = "framing-gap" if 0 <= ext_lg <= E else "logical-overshoot"
             key = ("ext-overshoot-uploaded-before-refusal:" if failed else "ext-cap-exceeded:") + f"{kind}:{degree}"
             ctx.fail(
                 key,
@@ -365,6 +371,8 @@ def items(ctx: Ctx) -> list[dict[str, Any]]:
                         continue  # incompressible payloads only matter where something is compressed
                     for codec in codecs:
                         out.append({"kind": "unary", "prm": prm, "ext": ext, "codec": codec})
+    if ctx.quick:  # one large incompressible result under upload compression (compressed object > raw object)
+        out.append({"kind": "unary", "prm": {"n": 70000, "nlogs": 0, "noise": 1}, "ext": {"thr": 1, "comp": "zstd"}, "codec": "identity"})
     xpairs = ((8, 300), (2000, 300)) if ctx.quick else tuple(itertools.product((8, 300, 2000), repeat=2)) + ((70000, 8),)
     for n1, n2 in xpairs:
         for nlogs in (0, 2) if ctx.quick else (0, 1, 2):
